@@ -463,8 +463,11 @@ class DynamicResource(Resource):
         match = self._pattern.fullmatch(path)
         if match is None:
             return None
+        # A named group inside a variable's regex may not take part in the match.
         return {
-            key: _unquote_path_safe(value) for key, value in match.groupdict().items()
+            key: _unquote_path_safe(value)
+            for key, value in match.groupdict().items()
+            if value is not None
         }
 
     def raw_match(self, path: str) -> bool:
